@@ -45,6 +45,9 @@ def _violations(prop: str, overlay: Dict[str, str]) -> Tuple[List[Tuple[str, str
     known = load_known()
     out = [(v.rule, v.construct) for v in chk.violations()
            if (prop, v.rule, v.construct) not in known]
+    if not out and chk.undecided():
+        u = chk.undecided()[0]
+        return [], "ANALYSIS-ERROR: cannot decide %s %s" % (u.rule, u.construct)
     if not out and chk.floor_failures:
         return [], "ANALYSIS-ERROR: %s" % chk.floor_failures[0]
     return out, None
